@@ -234,3 +234,16 @@ PROPS["C08"] = dict(
         R("C08.p2pkeswarm_multiswarm_dht", "crash", "TestC08SwarmsAndDHT", 500, 25000),
     ],
 )
+
+PROPS["C11"] = dict(
+    level="exploration",
+    technique="property-based testing (rapid): generated concurrent ask workloads with failure classes on generated ask-capable stacks; request/response nonce ledger oracle",
+    level_text="Handlers answer with bytes unique to the invocation and record what they saw; every successful Ask is matched against the invocation that produced its bytes, and every failure class (negative return, closed destination, short buffer, ended context) must surface as an error within the deadline. Holds on everything generated.",
+    level_note="Concurrency is real goroutines (symmetric bursts, groups), not an owned schedule. Deadlines carry 1.5 s slack.",
+    design_ref="4/C11",
+    assumptions=["an Ask may fail for any reason; only wrong/empty/truncated successes and late returns are violations"],
+    subs=[
+        R("C11.mem_stacks", "swarms", "TestC11Mem", 240, 10000, shrink=10, quick=dict(checks=240, shards=4, timeout=600)),
+        R("C11.quic_ssh_stacks", "swarms", "TestC11Net", 32, 1200, shrink=10, quick=dict(checks=32, shards=4, timeout=600)),
+    ],
+)
